@@ -128,15 +128,29 @@ class ApplyBody(object):
                 continue
             if w.field[1] == self.prog.adts[self.A["STATE"]]["path"]:
                 continue
-            lv = sl.leaves_of_operand(w.rv["op"]) if w.rv["k"] == "use" else set()
+            lv = sl.leaves_of_rv(w.rv, w.bb) if w.rv["k"] in ("use", "binop") else set()
             for l in lv:
                 if l[0] == "binop":
-                    for (lhs, op, a, bo) in binops_in(b, l[2]):
+                    ops_here = [(None, w.rv["op"], w.rv["a"], w.rv["b"])] if w.rv["k"] == "binop" else binops_in(b, l[2])
+                    for (lhs, op, a, bo) in ops_here:
                         sign = "+" if op.startswith("Add") else ("-" if op.startswith("Sub") else None)
                         if sign is None:
                             continue
                         amt = canon(sl.leaves_of_operand(bo))
                         self.stat_writes.setdefault(w.bb, []).append((w.field[2], sign, amt))
+
+        # unit increments of plain local counters (a count the body may report to its caller)
+        from .prov import root_local
+        self.count_adds = {}
+        for bb in b.normal_blocks():
+            for (lhs, op, a, bo) in binops_in(b, bb):
+                if not op.startswith("Add"):
+                    continue
+                if not ("const" in bo and bo["const"].get("v") == 1):
+                    continue
+                c = root_local(b, a)
+                if isinstance(c, int) and c > b.argc and self.prog.types[b.locals[c]].get("k") == "prim":
+                    self.count_adds.setdefault(bb, []).append(c)
 
     # ---- switch interpretation ----
     def _switch_outcomes(self, bb):
@@ -212,6 +226,8 @@ class ApplyBody(object):
             # statements: stat writes
             for (fname, sign, amt) in self.stat_writes.get(bb, []):
                 st.events.append({"k": "stat", "field": fname, "sign": sign, "amt": amt, "bb": bb})
+            for c in self.count_adds.get(bb, []):
+                st.events.append({"k": "count", "local": c, "bb": bb})
             t = b.blocks[bb]["term"]
             k = t["k"]
             if k == "return":
@@ -320,6 +336,15 @@ def judge_path(ab, st):
             pushes.append((e["args"][0], e["args"][1], i))
         elif k == "stat":
             stats.append(e)
+
+    want = getattr(ab, "count_locals", None)
+    if want:
+        n_removed = sum(1 for e in ev if e["k"] == "rem" and e.get("opt") == "some")
+        for c in sorted(want):
+            n_c = sum(1 for e in ev if e["k"] == "count" and e["local"] == c)
+            out.append((n_c == n_removed, "count",
+                        "path [%s]: the reported counter is advanced %d time(s), %d mapping(s) removed" % (
+                            " ; ".join(desc) or "(no key-map operation)", n_c, n_removed)))
 
     def norm(d):
         o = {}
